@@ -121,7 +121,23 @@ def main():
             meta['check']['replay_kind'] = r.get('kind')
         except Exception:
             pass
-    json.dump(meta, open(os.path.join(outdir, 'meta.json'), 'w'), indent=1)
+    mp = os.path.join(outdir, 'meta.json')
+    if os.path.exists(mp):
+        try:
+            old = json.load(open(mp))
+            hist = old.get('earlier_runs', [])
+            if 'check' in old:
+                hist.append({'at': old.get('checked_at', old.get('confirmed_at')), 'detected': old.get('detected'),
+                             'violation_lines': old['check'].get('violation_lines'),
+                             'replay_what': old['check'].get('replay_what')})
+            meta['earlier_runs'] = hist
+            for k in ('confirm', 'confirmed', 'needs_to_manifest', 'confirmed_at', 'note'):
+                if k in old and k not in meta:
+                    meta[k] = old[k]
+        except Exception:
+            pass
+    meta['checked_at'] = time.strftime('%Y-%m-%dT%H:%M:%S')
+    json.dump(meta, open(mp, 'w'), indent=1)
     print('check rc=%d %s (%.0fs) -> %s' % (rcc, vio[:1], wall, 'DETECTED' if meta['detected'] else 'MISSED'))
     # make sure the clean tree is green again (also restores Extracted files)
     rcc2, outc2 = sh('./check %s --tier quick' % prop, cwd=VERIF)
